@@ -809,3 +809,30 @@ func genC14(t *rapid.T) *Program {
 	b, _ := json.Marshal(&c)
 	return &Program{Prop: "C14", Cfg: Config{Backing: "store"}, Extra: b}
 }
+
+// ---------------------------------------------------------------
+// C12: history walk / revert programs
+
+func genC12(t *rapid.T, spec *GenSpec) (*Program, int) {
+	p := &Program{Prop: "C12"}
+	p.Cfg = genConfig(t, spec)
+	p.Cfg.Backing = "store"
+	g := &genState{spec: spec, model: NewNode(), deadKids: map[string]bool{}}
+	g.keys = genKeyPool(t, false, 6)
+	n := rapid.IntRange(2, 30).Draw(t, "nops")
+	for i := 0; i < n; i++ {
+		switch pick(t, "op", 40, 30, 14, 8, 8) {
+		case 0:
+			p.Ops = append(p.Ops, Op{Kind: "batch", B: g.nextBatch(t)})
+		case 1:
+			p.Ops = append(p.Ops, Op{Kind: "mstep", MKind: mstepKinds[pick(t, "mkind", 70, 20, 10)]})
+		case 2:
+			p.Ops = append(p.Ops, Op{Kind: "walk", N: rapid.IntRange(1, 8).Draw(t, "depth")})
+		case 3:
+			p.Ops = append(p.Ops, Op{Kind: "revert", N: rapid.IntRange(0, 5).Draw(t, "rdepth")})
+		case 4:
+			p.Ops = append(p.Ops, Op{Kind: "reopen", Drain: true})
+		}
+	}
+	return p, g.excluded
+}
